@@ -51,7 +51,9 @@ StepVerdict(o, i, s, strays) ==
   LET e == o.events[i]
       g == o.steps[i]
       r == Step(s, e)
-  IN IF "err" \in DOMAIN g THEN "raised"
+  \* an operation with an out-of-domain argument: its decoder may refuse it (the caller catches that and goes on); the
+  \* records are still fed, the fold continues with the state Step gives
+  IN IF "err" \in DOMAIN g THEN (IF "ood" \in DOMAIN e THEN "ok" ELSE "raised")
      ELSE IF MaySwallow(e) /\ o.mode # "full" THEN (IF g.emit /\ g.win # <<i>> THEN "window" ELSE "ok")
      ELSE IF MaySwallow(e) /\ g.emit THEN "fragment-trace"        \* C08: continuation records never emit
      ELSE IF g.emit # r.out.emit THEN (IF g.emit THEN "spurious-trace" ELSE "missing-trace")
